@@ -345,6 +345,18 @@ theorem server_ignores_seed_packet {α : Type} (ops : GoRand.NumOps α) (sha256 
   rw [h]
   exact ⟨rfl, rfl⟩
 
+/-- **Connections are independent.**  Adopting a bridge's seed on one client connection does not
+    change the seeds (hence the length / IAT tables) of any other live connection, and gives
+    connection `i` exactly the seeds of its own bridge. -/
+theorem connections_independent (sha256 : Bytes → Bytes) (conns : List DistSeeds) (i j : Nat)
+    (payload : Bytes) (hij : i ≠ j) :
+    (adoptAt sha256 conns i payload)[j]? = conns[j]? ∧
+    (adoptAt sha256 conns i payload)[i]? = (conns[i]?).map (fun d => adoptSeed sha256 false d payload) := by
+  unfold adoptAt
+  refine ⟨List.getElem?_modify_ne _ _ hij, ?_⟩
+  rw [List.getElem?_modify]
+  cases conns[i]? <;> simp
+
 /-- **The client's `Write` samples atomically with respect to re-seeding** (structural fact
     regenerated from `common/probdist` on every run): `lenDist.Sample()` / `iatDist.Sample()` called
     by `Write` and `Reset()` called by `readPackets` when a PRNG-seed packet arrives in another
